@@ -37,6 +37,9 @@ fn main() {
     match id.as_str() {
         "C01" => props::c01::run(chk),
         "C02" => props::c02::run(chk),
+        "C03" => props::c03::run(chk),
+        "C04" => props::c04::run(chk),
+        "C06" => props::c06::run(chk),
         _ => infra(&format!("no check for {id}")),
     }
 }
